@@ -3,6 +3,7 @@ package props
 import (
 	"context"
 	"crypto/tls"
+	"errors"
 	"fmt"
 	"net/http"
 	"os"
@@ -584,12 +585,17 @@ func (p *tlsProbe) try(name string) bool {
 type countingReader struct {
 	id    string
 	reads int64
+	calls int64 // change notifications delivered to this reader's callback
+	fails int32 // 1 while the file cannot be read
 	data  atomic.Value
 }
 
 func (r *countingReader) ID() string { return r.id }
 func (r *countingReader) Read() ([]byte, error) {
 	atomic.AddInt64(&r.reads, 1)
+	if atomic.LoadInt32(&r.fails) == 1 {
+		return nil, errors.New("file is not there right now")
+	}
 	return r.data.Load().([]byte), nil
 }
 
@@ -603,13 +609,26 @@ func c20Watcher(c *sim.Case) {
 	n := 1 + sim.Pick(c, "nops", 8)
 	cancelled := false
 	for i := 0; i < n; i++ {
-		switch sim.Weighted(c, "op", 5, 2, 1) {
+		switch sim.Weighted(c, "op", 5, 2, 1, 2) {
+		case 3:
+			// the watched file disappears for a while (a volume being re-mounted, a rename in progress) or comes back
+			// with other content
+			if r := current[ids[sim.Pick(c, "fail.id", 2)]]; r != nil {
+				if atomic.LoadInt32(&r.fails) == 0 {
+					atomic.StoreInt32(&r.fails, 1)
+					c.Logf("%s becomes unreadable", r.id)
+				} else {
+					r.data.Store([]byte(fmt.Sprintf("back-%d", i)))
+					atomic.StoreInt32(&r.fails, 0)
+					c.Logf("%s is readable again", r.id)
+				}
+			}
 		case 0:
 			id := ids[sim.Pick(c, "id", 2)]
 			r := &countingReader{id: id}
 			r.data.Store([]byte(fmt.Sprintf("v%d", i)))
 			iv := []time.Duration{0, 5 * time.Millisecond, 10 * time.Millisecond}[sim.Pick(c, "interval", 3)]
-			if _, err := fw.WatchFile(r, iv, func([]byte) {}); err != nil {
+			if _, err := fw.WatchFile(r, iv, func([]byte) { atomic.AddInt64(&r.calls, 1) }); err != nil {
 				c.Violation("watch-error", "WatchFile: %v", err)
 			}
 			if old := current[id]; old != nil {
@@ -632,13 +651,21 @@ func c20Watcher(c *sim.Case) {
 	}
 	time.Sleep(30 * time.Millisecond) // let in-flight ticks drain
 	before := make([]int64, len(superseded))
+	callsBefore := make([]int64, len(superseded))
 	for i, r := range superseded {
 		before[i] = atomic.LoadInt64(&r.reads)
+		callsBefore[i] = atomic.LoadInt64(&r.calls)
+		// whatever kept a superseded watcher busy is over now: its file is readable and has new content
+		r.data.Store([]byte("after-being-superseded"))
+		atomic.StoreInt32(&r.fails, 0)
 	}
 	time.Sleep(60 * time.Millisecond)
 	for i, r := range superseded {
 		if after := atomic.LoadInt64(&r.reads); after > before[i]+1 {
 			c.Violation("superseded-watcher-still-reading", "reader of %s was superseded (or its context cancelled) but was read %d more times in 60 ms", r.id, after-before[i])
+		}
+		if after := atomic.LoadInt64(&r.calls); after > callsBefore[i] {
+			c.Violation("superseded-watcher-still-notifying", "the callback of a superseded (or cancelled) watcher of %s was called %d more times", r.id, after-callsBefore[i])
 		}
 	}
 	if len(superseded) > 0 {
